@@ -162,6 +162,7 @@ pub fn all_points(ctx: &Ctx) -> Vec<(&'static str, usize)> {
         ("index.removed", 1),
         ("index.dir_created", 1),
         ("index.ready", 1),
+        ("rebuild.meta_invalidated", 1),
         ("rebuild.start", 1),
         ("rebuild.writer_created", 1),
         ("rebuild.cleared", 1),
